@@ -278,6 +278,11 @@ def run():
         row = dict(target="tailprior", kernel=["tpcn", "rwm"][j % 2], resample=["mult", "syst"][(j // 2) % 2], clustering=False,
                    mode=["vec", "scalar", "blobs", "blobs3"][j % 4], metric="ess", N=48, cluster_every=1)
         tasks.append(("tvf.checks.c07:traced", dict(cfg=to_cfg(row, ck.subseed("tail", j))), None))
+    # unit-cube prior whose transform is the identity and returns its argument (x and u are one object unless the library copies)
+    for j in range(ck.pick(4, 12)):
+        row = dict(target=["expface", "support", "expface_refl"][j % 3], kernel=["tpcn", "rwm"][j % 2], resample=["mult", "syst"][(j // 2) % 2],
+                   clustering=bool(j % 2), mode=["vec", "scalar", "blobs", "blobs3"][j % 4], metric=["ess", "vol"][(j // 2) % 2], N=[32, 48][j % 2], cluster_every=1)
+        tasks.append(("tvf.checks.c07:traced", dict(cfg=dict(to_cfg(row, ck.subseed("alias", j)), xalias=True)), None))
     # likelihood evaluated in worker processes (integer pool): records are judged by re-evaluating the pure likelihood
     for j in range(ck.pick(2, 6)):
         row = dict(target=["gauss2", "bimodal", "support"][j % 3], kernel=["tpcn", "rwm"][j % 2], resample=["syst", "mult"][j % 2], clustering=bool(j % 2),
@@ -293,6 +298,8 @@ def run():
             continue
         ck.case(dict(cfg=cfg), nontrivial=val["iters"] > 2)
         ck.event("monitored runs")
+        if cfg.get("xalias"):
+            ck.event("monitored runs whose prior transform returns its argument (identity on the unit cube)")
         if isinstance(cfg.get("pool"), int):
             ck.event("monitored runs whose likelihood is evaluated in worker processes (integer pool)")
         ck.event("step boundaries checked", val["boundaries"])
